@@ -54,7 +54,8 @@ namespace pl
 
     // TAG distinguishes types; PAD pads the object; NT_MOVE: move constructor is noexcept; TH_COPY / TH_MOVE / TH_ASSIGN:
     // the respective operation is a throw point; ALIGN: alignment requirement.
-    template <int TAG, std::size_t PAD, bool NT_MOVE, bool TH_COPY, bool TH_MOVE, bool TH_ASSIGN, std::size_t ALIGN = alignof(void*)>
+    // NT_COPY: the copy constructor is declared noexcept (it then must not be a throw point)
+    template <int TAG, std::size_t PAD, bool NT_MOVE, bool TH_COPY, bool TH_MOVE, bool TH_ASSIGN, std::size_t ALIGN = alignof(void*), bool NT_COPY = false>
     struct alignas(ALIGN) Tracked : Pad<PAD>
     {
         static const int tag = TAG;
@@ -76,7 +77,7 @@ namespace pl
         }
 
         explicit Tracked(int v) : cell(new Cell{v, false}) { born(); }
-        Tracked(const Tracked& o) : cell(nullptr)
+        Tracked(const Tracked& o) noexcept(NT_COPY) : cell(nullptr)
         {
             use(&o, "copy-construction from");
             if (TH_COPY) throw_point("copy ctor");
